@@ -2099,7 +2099,13 @@ class ShEval:
         from .pC38 import Obj, ClassObj
         if isinstance(o, Obj) and o.kind == 'instance' and o.cls is not None and not isinstance(o, ClassObj):
             if id(o) not in self.__dict__.setdefault('_insts', {}):
-                self._insts[id(o)] = Inst(o.cls, {k: self.as_value(v) for k, v in o.extra.items()})
+                inst = self._insts[id(o)] = Inst(o.cls, {})        # registered first: the object graph of the namespace may be cyclic
+                fields = {k: self.as_value(v) for k, v in o.extra.items()}
+                for attr in ('extra', 'fields', 'attrs', 'd'):
+                    tgt = getattr(inst, attr, None)
+                    if isinstance(tgt, dict):
+                        tgt.update(fields)
+                        break
             return self._insts[id(o)]
         if isinstance(o, Obj) and o.kind == 'const' and isinstance(o.node, ast.Constant):
             return Const(o.node.value)
